@@ -65,3 +65,76 @@ func VerifC06_Merge(n int) {
 	}
 	vReach("end")
 }
+
+// one member of the class is itself the result of an earlier dereplication: it carries merged_sample
+// (typed as the toolkit builds it, as a plain map[string]int, or generic as the JSON header parser returns
+// it - with int or float64 values) and the matching count.  It sits first or last in the class.
+func VerifC06_MergePremerged(n, kind, pos int) {
+	if n < 2 || n > 3 || pos < 0 || pos > 1 {
+		vSkip()
+	}
+	ka := vInt(1, 50)
+	hasCount := make([]bool, n)
+	count := make([]int, n)
+	hasCat := make([]bool, n)
+	cat := make([]int, n)
+	for i := 1; i < n; i++ {
+		hasCount[i], count[i], hasCat[i], cat[i] = vBool(), vInt(1, 100), vBool(), vInt(0, 1)
+	}
+	pre := NewBioSequence("p", []byte("acgt"), "")
+	switch kind {
+	case 0:
+		pre.SetAttribute("merged_sample", StatsOnValues{"aa": ka})
+	case 1:
+		pre.SetAttribute("merged_sample", map[string]int{"aa": ka})
+	case 2:
+		pre.SetAttribute("merged_sample", map[string]interface{}{"aa": ka})
+	case 3:
+		ka = 2
+		pre.SetAttribute("merged_sample", map[string]interface{}{"aa": float64(2)})
+	default:
+		vSkip()
+	}
+	pre.SetCount(ka)
+	seqs := MakeBioSequenceSlice()
+	if pos == 0 {
+		seqs = append(seqs, pre)
+	}
+	total, wantA, wantB, wantNA := ka, ka, 0, 0
+	for i := 1; i < n; i++ {
+		s := NewBioSequence("s", []byte("acgt"), "")
+		s.Annotations()
+		if hasCount[i] {
+			s.SetCount(count[i])
+		} else {
+			count[i] = 1
+		}
+		if hasCat[i] {
+			s.SetAttribute("sample", vCats[cat[i]])
+		}
+		seqs = append(seqs, s)
+		total += count[i]
+		switch {
+		case !hasCat[i]:
+			wantNA += count[i]
+		case cat[i] == 0:
+			wantA += count[i]
+		default:
+			wantB += count[i]
+		}
+	}
+	if pos == 1 {
+		seqs = append(seqs, pre)
+	}
+	stats := StatsOnDescriptions{"sample": MakeStatsOnDescription("sample")}
+	m := seqs.Merge("NA", stats)
+	vAssert(m != nil && m.Count() == total, "premerged-count-is-the-sum-of-counts")
+	if m == nil {
+		return
+	}
+	st := m.StatsOn(MakeStatsOnDescription("sample"), "NA")
+	a, b, na := st["aa"], st["bb"], st["NA"]
+	vAssert(a == wantA && b == wantB && na == wantNA, "premerged-map-sums-weights-per-value")
+	vAssert(a+b+na == total, "premerged-map-total-is-the-count")
+	vReach("end")
+}
